@@ -1,5 +1,5 @@
 import TsVerif.C01.Judge
-import TsVerif.C10.Props
+import TsVerif.C10.Model
 /-!
 # C01 — Incremental re-parse equals parsing the new text from scratch
 
@@ -264,6 +264,20 @@ theorem relex_after {μ : Type} (lex : μ → List Nat → Nat → Tok) (hl : Le
   congr 1
   omega
 
+/-- (C10 has this as `edit_marks_root`; re-proved here so that this file depends only on the port
+`TsVerif.C10.Model`.)  A subtree the edit reaches is marked. -/
+theorem editTree_marks_root (d : NodeData) (ks : List Tree) (e : C10.Edit)
+    (h : ¬ (e.start.bytes > (length_add d.padding d.size).bytes + d.lookahead ∨
+        ((e.old_end.bytes = e.start.bytes ∧ e.new_end.bytes = e.start.bytes) ∧
+          e.start.bytes = (length_add d.padding d.size).bytes + d.lookahead))) :
+    (C10.editTree (.mk d ks) e).data.hasChanges = true := by
+  unfold C10.editTree
+  simp only [h, if_false, Tree.data]
+  unfold C10.store
+  split
+  · split <;> rfl
+  · rfl
+
 /-- `relex_same_unmarked_leaf` (tie to C10): let a leaf `d` sit at absolute offset `p` of `text`
 and be what the lexer produced there.  If `ts_subtree_edit` (C10's `editTree`), given the change
 in the leaf's local coordinates, leaves the leaf UNMARKED (`has_changes` false afterwards), then lexing the NEW text at `p` gives
@@ -282,7 +296,7 @@ theorem relex_same_unmarked_leaf {μ : Type} (lex : μ → List Nat → Nat → 
     by_cases hc : e.start.bytes > (length_add d.padding d.size).bytes + d.lookahead
     · exact hc
     · exfalso
-      have := C10.edit_marks_root d [] e (by
+      have := editTree_marks_root d [] e (by
         intro h
         rcases h with h | h
         · exact hc h
